@@ -217,11 +217,11 @@ Qed.
 Definition cref (ns : nsdict) (r : iriref) : str :=
   match resolve ns r with Some i => i | None => [] end.
 
-Lemma ok_ref_cases ns pd fo r :
-  ok_ref ns pd fo r = true ->
+Lemma ok_ref_cases ns pd fo once r :
+  ok_ref ns pd fo once r = true ->
   (exists i, r = Full i /\ fo = true /\ ok_iri i = true /\ prefixb (Str "<") i = false /\ first_prefix pd i = None) \/
   (exists i, r = Angle i /\ ok_iri i = true) \/
-  (exists p l n, r = Pref p l /\ ns_of ns p = Some n /\ ok_local p l = true /\ ok_iri (n ++ l) = true).
+  (exists p l n, r = Pref p l /\ ns_of ns p = Some n /\ ok_local once p l = true /\ ok_iri (n ++ l) = true).
 Proof.
   destruct r as [i|i|p l]; cbn [ok_ref]; intros H.
   - left. exists i. repeat (apply andb_true_iff in H; destruct H as [H ?]).
@@ -268,21 +268,44 @@ Proof. unfold remove_corners. rewrite has_corners_angle, slice_angle. reflexivit
 Lemma noraise_angle i : remove_corners_noraise (Str "<" ++ i ++ Str ">") = i.
 Proof. unfold remove_corners_noraise. rewrite has_corners_angle, slice_angle. reflexivity. Qed.
 
-Lemma ok_local_facts p l :
-  ok_local p l = true ->
-  nospace l = true /\ True /\ contains (p ++ Str ":") l = false /\
+Lemma ok_local_facts once p l :
+  ok_local once p l = true ->
+  nospace l = true /\ True /\ (once = true \/ contains (p ++ Str ":") l = false) /\
   suffixb (Str ">") (Str ":" ++ l) = false.
 Proof.
   unfold ok_local. intros H.
   apply andb_true_iff in H; destruct H as [H H2]. apply andb_true_iff in H; destruct H as [H H1].
-  repeat split; auto; apply negb_true_iff; assumption.
+  repeat split; auto; [|apply negb_true_iff; assumption].
+  apply orb_true_iff in H1. destruct H1 as [H1|H1]; [left; assumption | right; apply negb_true_iff; assumption].
 Qed.
 
-Lemma unprefix_hit p n l : contains (p ++ Str ":") l = false -> unprefix p n (p ++ Str ":" ++ l) = n ++ l.
+(** [s.replace(a, b, 1)] on a string that starts with [a]: whatever follows is kept *)
+Lemma replace_once_prefix a b l : replace_once a b (a ++ l) = b ++ l.
 Proof.
-  intros H. unfold unprefix. rewrite (app_assoc p). apply replace_all_prefix; [|assumption].
-  destruct p; discriminate.
+  unfold replace_once.
+  assert (E : find_nat a (a ++ l) = Some O).
+  { destruct (a ++ l) eqn:Ea; cbn [find_nat]; rewrite <- Ea, prefixb_app; reflexivity. }
+  rewrite E. cbn [firstn app Nat.add]. rewrite skipn_app_length. reflexivity.
 Qed.
+
+(** both texts of the expansion of a prefixed name: the one that replaces every
+    occurrence is right when the local part does not hold [prefix:] again *)
+Lemma unprefix_with_hit once p n l :
+  once = true \/ contains (p ++ Str ":") l = false -> unprefix_with once p n (p ++ Str ":" ++ l) = n ++ l.
+Proof.
+  intros H. unfold unprefix_with. rewrite (app_assoc p). destruct once.
+  - apply replace_once_prefix.
+  - destruct H as [H|H]; [discriminate|]. apply replace_all_prefix; [|assumption].
+    destruct p; discriminate.
+Qed.
+
+Lemma unprefix_hit p n l :
+  c_unprefix_ifp_once = true \/ contains (p ++ Str ":") l = false -> unprefix p n (p ++ Str ":" ++ l) = n ++ l.
+Proof. apply unprefix_with_hit. Qed.
+
+Lemma unprefix_sel_hit p n l :
+  c_unprefix_sel_once = true \/ contains (p ++ Str ":") l = false -> unprefix_sel p n (p ++ Str ":" ++ l) = n ++ l.
+Proof. apply unprefix_with_hit. Qed.
 
 Lemma prefixed_not_angle p l : first_char_is "<"%char p = false -> prefixb (Str "<") (p ++ Str ":" ++ l) = false.
 Proof.
@@ -310,12 +333,12 @@ Qed.
 
 (** a class name, as [tune_target_classes_if_needed] + [create_IRIs_from_string_list] read it *)
 Lemma tune_one_ok ns p0 r :
-  wf_ns_facts ns p0 -> ok_ref ns (pd_of ns) true r = true ->
+  wf_ns_facts ns p0 -> ok_ref ns (pd_of ns) true c_unprefix_ifp_once r = true ->
   tune_one_class (pd_of ns) (show_ref r) = Ok (cref ns r) /\
   resolve ns r = Some (cref ns r) /\ ok_iri (cref ns r) = true.
 Proof.
   intros W H. pose proof (good_pd_of _ _ W) as G.
-  destruct (ok_ref_cases _ _ _ _ H) as [[i [-> [_ [Hi [Hlt Hfp]]]]] | [[i [-> Hi]] | [p [l [n [-> [Hn [Hl Hi]]]]]]]].
+  destruct (ok_ref_cases _ _ _ _ _ H) as [[i [-> [_ [Hi [Hlt Hfp]]]]] | [[i [-> Hi]] | [p [l [n [-> [Hn [Hl Hi]]]]]]]].
   - unfold tune_one_class, cref. cbn [show_ref resolve]. rewrite Hlt.
     unfold unprefixize_uri_if_possible. rewrite Hfp. auto.
   - unfold tune_one_class, cref. cbn [show_ref resolve].
@@ -327,18 +350,18 @@ Proof.
     rewrite (prefixed_not_angle _ _ Hlt).
     unfold unprefixize_uri_if_possible.
     rewrite (first_prefix_hit _ _ _ _ G (pd_of_In _ _ _ _ W Hin)).
-    destruct (ok_local_facts _ _ Hl) as [_ [_ [Hc _]]]. rewrite (unprefix_hit _ _ _ Hc). auto.
+    destruct (ok_local_facts _ _ _ Hl) as [_ [_ [Hc _]]]. rewrite (unprefix_hit _ _ _ Hc). auto.
 Qed.
 
 (** the instantiation property, as Shaper.__init__ + _decide_instantiation_property read it *)
 Lemma tau_ok ns p0 r :
-  wf_ns_facts ns p0 -> ok_ref ns (reverse_keys_and_values ns) true r = true ->
+  wf_ns_facts ns p0 -> ok_ref ns (reverse_keys_and_values ns) true c_unprefix_ifp_once r = true ->
   remove_corners_noraise (unprefixize_uri_if_possible (show_ref r) (reverse_keys_and_values ns) false) = cref ns r /\
   resolve ns r = Some (cref ns r) /\ ok_iri (cref ns r) = true.
 Proof.
   intros W H. pose proof (good_pd_swap _ _ W) as G.
   rewrite (reverse_nodup _ (wn_nodup_p _ _ W)) in *.
-  destruct (ok_ref_cases _ _ _ _ H) as [[i [-> [_ [Hi [Hlt Hfp]]]]] | [[i [-> Hi]] | [p [l [n [-> [Hn [Hl Hi]]]]]]]].
+  destruct (ok_ref_cases _ _ _ _ _ H) as [[i [-> [_ [Hi [Hlt Hfp]]]]] | [[i [-> Hi]] | [p [l [n [-> [Hn [Hl Hi]]]]]]]].
   - unfold unprefixize_uri_if_possible, cref. cbn [show_ref resolve]. rewrite Hfp.
     rewrite noraise_id by (apply (if_nocorners _ (ok_iri_facts _ Hi))). auto.
   - unfold unprefixize_uri_if_possible, cref. cbn [show_ref resolve].
@@ -347,7 +370,7 @@ Proof.
     pose proof (ns_of_In _ _ _ Hn) as Hin.
     assert (Hin' : In (p, n) (map swap ns)) by (apply in_map_iff; exists (n, p); auto).
     rewrite (first_prefix_hit _ _ _ _ G Hin').
-    destruct (ok_local_facts _ _ Hl) as [_ [_ [Hc _]]]. rewrite (unprefix_hit _ _ _ Hc).
+    destruct (ok_local_facts _ _ _ Hl) as [_ [_ [Hc _]]]. rewrite (unprefix_hit _ _ _ Hc).
     rewrite noraise_id by (apply (if_nocorners _ (ok_iri_facts _ Hi))). auto.
 Qed.
 
@@ -372,12 +395,12 @@ Proof. apply prefixb_kw_colon. reflexivity. Qed.
 
 (** selector text of a reference that is not written in full *)
 Lemma parse_node_ref ns p0 wf r :
-  wf_ns_facts ns p0 -> ok_ref ns (pd_of ns) false r = true ->
+  wf_ns_facts ns p0 -> ok_ref ns (pd_of ns) false c_unprefix_sel_once r = true ->
   parse_node_selector wf (pd_of ns) (show_ref r) = Ok (PSNode (cref ns r)) /\
   resolve ns r = Some (cref ns r) /\ ok_iri (cref ns r) = true.
 Proof.
   intros W H. pose proof (good_pd_of _ _ W) as G.
-  destruct (ok_ref_cases _ _ _ _ H) as [[i [-> [F _]]] | [[i [-> Hi]] | [p [l [n [-> [Hn [Hl Hi]]]]]]]];
+  destruct (ok_ref_cases _ _ _ _ _ H) as [[i [-> [F _]]] | [[i [-> Hi]] | [p [l [n [-> [Hn [Hl Hi]]]]]]]];
     [discriminate | |].
   - unfold parse_node_selector, cref. cbn [show_ref resolve]. rewrite angle_edges, dispatch_consts.
     cbn [nth]. replace (prefixb (Str "<") (Str "<" ++ i ++ Str ">")) with true by reflexivity.
@@ -385,10 +408,10 @@ Proof.
   - unfold parse_node_selector, cref. cbn [show_ref resolve]. rewrite Hn. cbn [option_map].
     pose proof (ns_of_In _ _ _ Hn) as Hin.
     destruct (ok_prefix_facts _ (wn_prefix_ok _ _ W _ _ Hin)) as [Hs [_ [_ [Hlt [Hbr [_ Hkw]]]]]].
-    destruct (ok_local_facts _ _ Hl) as [Hls [_ [Hc _]]].
+    destruct (ok_local_facts _ _ _ Hl) as [Hls [_ [Hc _]]].
     rewrite (strip_nospace _ (nospace_prefixed _ _ Hs Hls)), dispatch_consts. cbn [nth].
     rewrite (prefixed_not_angle _ _ Hlt), (prefixed_not_brace _ _ Hbr), (prefixed_not_kw _ _ Hkw).
-    rewrite (first_prefix_hit _ _ _ _ G (pd_of_In _ _ _ _ W Hin)), (unprefix_hit _ _ _ Hc). auto.
+    rewrite (first_prefix_hit _ _ _ _ G (pd_of_In _ _ _ _ W Hin)), (unprefix_sel_hit _ _ _ Hc). auto.
 Qed.
 
 (** ** FOCUS patterns *)
@@ -457,7 +480,7 @@ Proof.
   intros W H Hw. pose proof (good_pd_of _ _ W) as G.
   destruct f as [| |r]; [discriminate | reflexivity |].
   cbn [ok_fterm] in H. cbn [show_fterm ctok].
-  destruct (ok_ref_cases _ _ _ _ H) as [[i [-> [F _]]] | [[i [-> Hi]] | [p [l [n [-> [Hn [Hl Hi]]]]]]]];
+  destruct (ok_ref_cases _ _ _ _ _ H) as [[i [-> [F _]]] | [[i [-> Hi]] | [p [l [n [-> [Hn [Hl Hi]]]]]]]];
     [discriminate | |].
   - unfold parse_uri_focus, cref. cbn [show_ref resolve].
     replace (str_eqb (Str "<" ++ i ++ Str ">") c_sel_a_token) with false by reflexivity.
@@ -465,10 +488,10 @@ Proof.
     rewrite suffixb_snoc. reflexivity.
   - unfold parse_uri_focus, cref. cbn [show_ref resolve]. rewrite Hn. cbn [option_map].
     rewrite (str_eqb_false_In ":"%char) by (apply colon_in_prefixed || apply not_colon_a).
-    destruct (ok_local_facts _ _ Hl) as [_ [_ [Hc Hsuf]]].
+    destruct (ok_local_facts _ _ _ Hl) as [_ [_ [Hc Hsuf]]].
     change (Str ">") with [">"%char] in *. rewrite suffixb_one_app by discriminate. rewrite Hsuf.
     pose proof (ns_of_In _ _ _ Hn) as Hin.
-    rewrite (first_prefix_hit _ _ _ _ G (pd_of_In _ _ _ _ W Hin)), (unprefix_hit _ _ _ Hc). reflexivity.
+    rewrite (first_prefix_hit _ _ _ _ G (pd_of_In _ _ _ _ W Hin)), (unprefix_sel_hit _ _ _ Hc). reflexivity.
 Qed.
 
 Lemma parse_subj_obj_ok ns p0 f c :
@@ -479,7 +502,7 @@ Proof.
   unfold parse_subj_obj_focus.
   rewrite (parse_uri_focus_ok _ _ (FIri r) W H eq_refl). cbn [bind].
   cbn [ok_fterm] in H. cbn [show_fterm].
-  destruct (ok_ref_cases _ _ _ _ H) as [[i [-> [F _]]] | [[i [-> Hi]] | [p [l [n [-> [Hn [Hl Hi]]]]]]]];
+  destruct (ok_ref_cases _ _ _ _ _ H) as [[i [-> [F _]]] | [[i [-> Hi]] | [p [l [n [-> [Hn [Hl Hi]]]]]]]];
     [discriminate | |].
   - cbn [show_ref].
     replace (str_eqb (lower (Str "<" ++ i ++ Str ">")) c_sel_FOCUS_LOWER) with false by reflexivity.
@@ -511,12 +534,12 @@ Lemma fterm_word ns p0 f :
 Proof.
   intros W H. destruct f as [| |r]; [split; [reflexivity | discriminate] | split; [reflexivity | discriminate] |].
   cbn [ok_fterm] in H. cbn [show_fterm].
-  destruct (ok_ref_cases _ _ _ _ H) as [[i [-> [F _]]] | [[i [-> Hi]] | [p [l [n [-> [Hn [Hl Hi]]]]]]]];
+  destruct (ok_ref_cases _ _ _ _ _ H) as [[i [-> [F _]]] | [[i [-> Hi]] | [p [l [n [-> [Hn [Hl Hi]]]]]]]];
     [discriminate | |]; cbn [show_ref].
   - split; [|discriminate]. rewrite !nospace_app, (if_nospace _ (ok_iri_facts _ Hi)). reflexivity.
   - pose proof (ns_of_In _ _ _ Hn) as Hin.
     destruct (ok_prefix_facts _ (wn_prefix_ok _ _ W _ _ Hin)) as [Hs _].
-    destruct (ok_local_facts _ _ Hl) as [Hls _].
+    destruct (ok_local_facts _ _ _ Hl) as [Hls _].
     split; [apply nospace_prefixed; assumption | destruct p; discriminate].
 Qed.
 
@@ -623,7 +646,7 @@ Qed.
 
 Lemma ok_label_split ns pd r :
   ok_label ns pd r = true ->
-  ok_ref ns pd false r = true /\ nochar "@"%char (show_ref r) = true /\
+  ok_ref ns pd false true r = true /\ nochar "@"%char (show_ref r) = true /\
   (len (show_ref r) <? 2)%Z = false /\ suffixb (Str ",") (show_ref r) = false.
 Proof.
   unfold ok_label. intros H.
@@ -639,7 +662,7 @@ Lemma parse_label_ok ns p0 r :
 Proof.
   intros W H. pose proof (good_pd_of _ _ W) as G.
   destruct (ok_label_split _ _ _ H) as [Hr [_ [Hlen _]]].
-  destruct (ok_ref_cases _ _ _ _ Hr) as [[i [-> [F _]]] | [[i [-> Hi]] | [p [l [n [-> [Hn [Hl Hi]]]]]]]];
+  destruct (ok_ref_cases _ _ _ _ _ Hr) as [[i [-> [F _]]] | [[i [-> Hi]] | [p [l [n [-> [Hn [Hl Hi]]]]]]]];
     [discriminate | |].
   - cbn [show_ref]. rewrite parse_label_angle. unfold clabel, cref. cbn [resolve]. auto.
   - cbn [show_ref] in *. unfold clabel, cref. cbn [resolve]. rewrite Hn. cbn [option_map].
@@ -689,13 +712,13 @@ Proof. unfold safe. apply nochar_app. Qed.
 Lemma safe_word s : nospace s = true -> safe s = true.
 Proof. apply nospace_nonl. Qed.
 
-Lemma ref_safe ns p0 fo r :
-  wf_ns_facts ns p0 -> ok_ref ns (pd_of ns) fo r = true -> fo = false ->
+Lemma ref_safe ns p0 fo once r :
+  wf_ns_facts ns p0 -> ok_ref ns (pd_of ns) fo once r = true -> fo = false ->
   safe (show_ref r) = true /\ nospace (show_ref r) = true /\ show_ref r <> [] /\
   first_char_is "#"%char (show_ref r) = false.
 Proof.
   intros W H Hfo. subst fo.
-  destruct (ok_ref_cases _ _ _ _ H) as [[i [-> [F _]]] | [[i [-> Hi]] | [p [l [n [-> [Hn [Hl Hi]]]]]]]];
+  destruct (ok_ref_cases _ _ _ _ _ H) as [[i [-> [F _]]] | [[i [-> Hi]] | [p [l [n [-> [Hn [Hl Hi]]]]]]]];
     [discriminate | |]; cbn [show_ref].
   - pose proof (ok_iri_facts _ Hi) as Fi.
     assert (Hs : nospace (Str "<" ++ i ++ Str ">") = true) by (rewrite !nospace_app, (if_nospace _ Fi); reflexivity).
@@ -703,7 +726,7 @@ Proof.
     apply safe_word; assumption.
   - pose proof (ns_of_In _ _ _ Hn) as Hin.
     destruct (ok_prefix_facts _ (wn_prefix_ok _ _ W _ _ Hin)) as [Hs [Hat [_ [_ [_ [Hhash _]]]]]].
-    destruct (ok_local_facts _ _ Hl) as [Hls _].
+    destruct (ok_local_facts _ _ _ Hl) as [Hls _].
     assert (Hsp : nospace (p ++ Str ":" ++ l) = true) by (apply nospace_prefixed; assumption).
     repeat split; [|assumption| destruct p; discriminate |].
     + apply safe_word; assumption.
@@ -714,7 +737,7 @@ Lemma fterm_safe ns p0 f :
   wf_ns_facts ns p0 -> ok_fterm ns (pd_of ns) f = true -> safe (show_fterm f) = true.
 Proof.
   intros W H. destruct f as [| |r]; [reflexivity | reflexivity |].
-  cbn [ok_fterm] in H. cbn [show_fterm]. apply (ref_safe _ _ _ _ W H eq_refl).
+  cbn [ok_fterm] in H. cbn [show_fterm]. apply (ref_safe _ _ _ _ _ W H eq_refl).
 Qed.
 
 Record text_facts (s : str) : Prop := {
@@ -735,7 +758,7 @@ Lemma selector_text ns p0 wf sel :
   wf_ns_facts ns p0 -> ok_selector ns (pd_of ns) wf sel = true -> text_facts (show_selector sel).
 Proof.
   intros W H. destruct sel as [r | p o | s p | q]; cbn [ok_selector] in H; cbn [show_selector].
-  - destruct (ref_safe _ _ _ _ W H eq_refl) as [H1 [H2 [H3 H4]]].
+  - destruct (ref_safe _ _ _ _ _ W H eq_refl) as [H1 [H2 [H3 H4]]].
     constructor; auto using nospace_edge. apply nospace_edge. rewrite nospace_rev. assumption.
   - apply andb_true_iff in H. destruct H as [H Ho]. apply andb_true_iff in H. destruct H as [_ Hp].
     constructor.
@@ -859,7 +882,7 @@ Lemma item_facts_of ns p0 wf it :
 Proof.
   intros W H. unfold ok_item_syn in H. apply andb_true_iff in H. destruct H as [Hlab Hsel].
   destruct (ok_label_split _ _ _ Hlab) as [Hr [Hat [_ Hcomma]]].
-  destruct (ref_safe _ _ _ _ W Hr eq_refl) as [L1 [L2 [L3 _]]].
+  destruct (ref_safe _ _ _ _ _ W Hr eq_refl) as [L1 [L2 [L3 _]]].
   destruct (parse_label_ok _ _ _ W Hlab) as [Hp _].
   constructor; auto.
   - apply (selector_text _ _ _ _ W Hsel).
